@@ -1,3 +1,34 @@
+// ---- following references: what type_resolve returns when it returns ----
+/// a schema that is nothing but a reference
+pub open spec fn is_pure_ref(s: JSchema) -> bool {
+    s matches JSchema::Object(o) && o.instance_type is None && o.format is None && o.enum_values is None && o.const_value is None
+        && o.subschemas is None && o.number is None && o.string is None && o.array is None && o.object is None && o.reference is Some
+}
+/// one step: the schema a pure reference names (anything else stays)
+pub open spec fn ref_step(s: JSchema, d: SchemaDeps) -> JSchema {
+    if is_pure_ref(s) { match deps_lookup(d, s->Object_0.reference->Some_0@) { Some(t) => t, None => s } } else { s }
+}
+pub open spec fn follow(s: JSchema, d: SchemaDeps, n: nat) -> JSchema
+    decreases n
+{
+    if n == 0 { s } else { ref_step(follow(s, d, (n - 1) as nat), d) }
+}
+/// the first schema along the chain of references that is not itself a pure reference, if there is one (else: the
+/// function does not return, and `resolved` is whatever `choose` picks -- never used then)
+pub open spec fn ends_at(s: JSchema, d: SchemaDeps, n: nat) -> bool {
+    !is_pure_ref(follow(s, d, n)) && forall|k: nat| k < n ==> is_pure_ref(#[trigger] follow(s, d, k))
+}
+pub open spec fn resolved(s: JSchema, d: SchemaDeps) -> JSchema {
+    follow(s, d, choose|n: nat| ends_at(s, d, n))
+}
+pub proof fn ends_at_unique(s: JSchema, d: SchemaDeps, n: nat, m: nat)
+    requires ends_at(s, d, n), ends_at(s, d, m),
+    ensures n == m
+{
+    if n < m { assert(is_pure_ref(follow(s, d, n))); }
+    if m < n { assert(is_pure_ref(follow(s, d, m))); }
+}
+
 // ---- which schemas count as scalar, as type_util.rs documents it ("Returns true iff the input schema is a boolean,
 // floating-point number, string or integer"; "For allOf and anyOf subschemas, we proceed only if there is a lone
 // subschema which we check recursively. For oneOf subschemas, we check that each subschema is scalar") ----
